@@ -1,7 +1,569 @@
-(* C06 - placeholder until the proofs land. *)
-From WP Require Import Base.Prelude Model.IntegrityBlock.
+(* C06 - Bundle signatures: covered exchanges verify, any alteration is detected.
+
+   "After the signatures-section signer has processed a bundle, every exchange
+   whose host the certificate covers verifies at any time inside the validity
+   window and yields the original (pre-integrity-encoding) body, exchanges it
+   does not cover are reported as unsigned, and this stays true after writing
+   and re-reading the bundle and for any sequence of signers appended one after
+   another (each vouched subset pointing at its own signer's leaf certificate).
+   Any change to a covered exchange's body, status or header fields, to the
+   signed subset, the signature bytes or the authority index makes verification
+   fail rather than succeed with altered content; expired, not-yet-valid or
+   longer-than-7-day signatures are refused."
+
+   Statements only; proofs live in Proofs/BundleSig{Base,Roundtrip,Cover,Tamper,Spec}.v.
+   Model = Model/BundleSig.v (bundle/signature/{signer,verifier}.go and
+   Exchange.AddPayloadIntegrity).  Spec side = Spec/BundleSig.v (signed-subset
+   CDDL as tokens, signed message, window) over Spec/Cbor.v and Spec/Mice.v
+   (Commits, Collision).  SHA-256 (H256), the key identification of a DER
+   certificate (x509_key) and signature verification (sig_ok) are universally
+   quantified; H256 is only required to return 32 bytes where MICE needs it.
+   NO collision-freedom is assumed: conclusions read "... \/ Collision H256".
+   Which hosts a certificate covers (CanSignForURL -> x509.VerifyHostname) is
+   outside the model: "covered" = the exchange was passed to AddExchange.
+   Writing and re-reading: the signatures section round-trips to the same
+   [signatures] value (signatures_section_roundtrip below), and the exchanges
+   themselves are the business of C03/C04/C05 (bundle write/read round trip).
+   Size side conditions (ss_ok, hdr_small): lenN is unbounded while Go lengths
+   are below 2^63; they always hold at run time. *)
+From Coq Require Import Lia Permutation Sorted.
+From WP Require Import Base.Prelude Base.Sha256.
+From WP Require Import Model.Cbor Model.Http Model.Url Model.Mice Model.CertChain Model.Bundle
+  Model.Sxg Model.BundleSig.
+From WP Require Import Spec.Cbor Spec.Mice Spec.BundleSig.
+From WP Require Import Proofs.BaseLemmas.
+From WP Require Proofs.SxgVerifyMsg Proofs.SxgVerifySound.
+From WP Require Import Proofs.BundleSigBase Proofs.BundleSigRoundtrip Proofs.BundleSigCover
+  Proofs.BundleSigTamper Proofs.BundleSigSpec Proofs.BundleSigSection.
+From WP Require Import Proofs.CertChainWrite.
 Open Scope N_scope.
 
-Theorem c06_smoke : lenN (web_bundle_id (repeat 7 32)) = 56.
-Proof. reflexivity. Qed.
-Print Assumptions c06_smoke.
+(* ==== the signed message ============================================================= *)
+Theorem generate_signed_message_injective : forall (signed signed' : bytes) (v v' : bversion),
+  generate_signed_message signed v = generate_signed_message signed' v' ->
+  signed = signed' /\ v = v'.
+Proof. exact BundleSigBase.generate_signed_message_injective. Qed.
+Print Assumptions generate_signed_message_injective.
+
+Theorem signed_message_spec : forall (signed : bytes) (v : bversion),
+  generate_signed_message signed v =
+  signed_message (match v with BV1 => false | BV2 => true end) signed.
+Proof. exact BundleSigSpec.signed_message_spec. Qed.
+Print Assumptions signed_message_spec.
+
+(* ==== any sequence of signers: authority indices ========================================= *)
+(* apply_signers folds UpdateSignatures over a list of (chain, signed, sig),
+   starting from a nil *Signatures (Proofs/BundleSigBase.v) *)
+Theorem authority_index_invariant : forall (l : list signer) (final : signatures) (i : nat)
+    (s : signer) (leaf : augcert) (rest : list augcert),
+  apply_signers None l = Some final ->
+  nth_error l i = Some s -> s_certs s = leaf :: rest ->
+  exists v, nth_error (sg_vouched final) i = Some v /\
+            vs_authority v = lenN (all_certs (firstn i l)) /\
+            vs_signed v = s_signed s /\ vs_sig v = s_sig s /\
+            vs_authority v < lenN (sg_auth final) /\
+            nth_error (sg_auth final) (N.to_nat (vs_authority v)) = Some leaf.
+Proof. exact BundleSigBase.authority_index_invariant. Qed.
+Print Assumptions authority_index_invariant.
+
+Theorem signers_layout : forall (l : list signer) (final : signatures),
+  apply_signers None l = Some final ->
+  sg_auth final = all_certs l /\ sg_vouched final = vouched_from 0 l.
+Proof. exact BundleSigBase.apply_signers_none. Qed.
+Print Assumptions signers_layout.
+
+(* what earlier signers wrote is never modified by later ones *)
+Theorem later_signers_preserve : forall (l1 l2 : list signer) (mid final : signatures),
+  apply_signers None l1 = Some mid -> apply_signers None (l1 ++ l2) = Some final ->
+  exists a v, sg_auth final = sg_auth mid ++ a /\ sg_vouched final = sg_vouched mid ++ v.
+Proof. exact BundleSigBase.later_signers_preserve. Qed.
+Print Assumptions later_signers_preserve.
+
+(* ==== SignedSubset.Encode / decodeSignedSubset ============================================ *)
+(* ss_ok s: 0 <= date, expires < 2^63; url.Parse accepts the validity URL (URL
+   model: url_parse <> UErr); validity, auth, URLs, variants, hashes,
+   integrity strings shorter than 2^63; every URL has at least one
+   resource-integrity pair (a zero-pair value is written but refused by the
+   decoder: array length 1 < 3).  Valid UTF-8 and pairwise distinct URLs are
+   NOT assumed: they follow from Encode succeeding.
+   Result: the same subset with the hash list in canonical order sh
+   (strictly ascending encoded URL), and the taint flag = "the URL model
+   could not classify the validity URL". *)
+Theorem signed_subset_roundtrip : forall (s : signed_subset) (bs : bytes),
+  ss_ok s -> encode_subset s = Ok bs ->
+  exists sh, Permutation sh (ss_hashes s) /\ url_sorted sh /\
+             decode_signed_subset bs = Ok (with_hashes s sh, url_taint (ss_validity s)).
+Proof. exact BundleSigRoundtrip.signed_subset_roundtrip. Qed.
+Print Assumptions signed_subset_roundtrip.
+
+Theorem encode_subset_injective : forall (s s' : signed_subset) (bs : bytes),
+  ss_ok s -> ss_ok s' -> encode_subset s = Ok bs -> encode_subset s' = Ok bs ->
+  ss_validity s = ss_validity s' /\ ss_auth s = ss_auth s' /\ ss_date s = ss_date s' /\
+  ss_expires s = ss_expires s' /\ Permutation (ss_hashes s) (ss_hashes s').
+Proof. exact BundleSigRoundtrip.encode_subset_injective. Qed.
+Print Assumptions encode_subset_injective.
+
+(* the bytes are the deterministic CBOR of the draft's signed-subset map *)
+Theorem encode_subset_spec : forall (s : signed_subset) (bs : bytes),
+  (0 <= ss_date s)%Z -> (0 <= ss_expires s)%Z ->
+  encode_subset s = Ok bs -> SubsetBytes (ssubset_of s) bs.
+Proof. exact BundleSigSpec.encode_subset_spec. Qed.
+Print Assumptions encode_subset_spec.
+
+Theorem encode_subset_total : forall (s : signed_subset),
+  utf8_valid (ss_validity s) = true -> Forall ent_utf8 (ss_hashes s) ->
+  NoDup (map (fun e : hentry => enc_bytes_of Model.Cbor.TText (fst e)) (ss_hashes s)) ->
+  exists bs, encode_subset s = Ok bs.
+Proof. exact BundleSigRoundtrip.encode_subset_total. Qed.
+Print Assumptions encode_subset_total.
+
+(* ==== verifyVouchedSubset / NewVerifier: what acceptance means ============================== *)
+(* window, auth-sha256 binding, signature check: all three behind every
+   accepted vouched subset *)
+Theorem window : forall (H256 : bytes -> bytes) (x509_key : bytes -> option (option N))
+    (sig_ok : N -> bytes -> bytes -> bool) (v : vouched) (auths : list augcert) (tsec tnsec : Z)
+    (ver : bversion) (ss : signed_subset) (cert : augcert) (t : bool),
+  verify_vouched H256 x509_key sig_ok v auths tsec tnsec ver = Ok (ss, cert, t) ->
+  vs_authority v < lenN auths /\
+  nth_error auths (N.to_nat (vs_authority v)) = Some cert /\
+  (exists kid, x509_key (ac_cert cert) = Some (Some kid) /\
+               sig_ok kid (generate_signed_message (vs_signed v) ver) (vs_sig v) = true) /\
+  decode_signed_subset (vs_signed v) = Ok (ss, t) /\
+  ss_auth ss = H256 (ac_cert cert) /\
+  verify_timestamps (ss_date ss) (ss_expires ss) tsec tnsec = true.
+Proof. exact BundleSigBase.verify_vouched_sound. Qed.
+Print Assumptions window.
+
+(* verifyTimestamps = date <= t <= expires (to the nanosecond) and
+   expires - date <= 604800, for int64 date / expires (any, including values
+   that wrap in time.Unix: those are never accepted) and |tsec| < 2^62 *)
+Theorem verify_timestamps_window : forall (d x tsec tnsec : Z),
+  SxgVerifyMsg.i64 d -> SxgVerifyMsg.i64 x -> SxgVerifySound.time_ok tsec tnsec ->
+  (verify_timestamps d x tsec tnsec = true <-> Window d x tsec tnsec).
+Proof. exact BundleSigSpec.verify_timestamps_window. Qed.
+Print Assumptions verify_timestamps_window.
+
+(* the refusals: index out of range, signature not accepted, auth-sha256
+   mismatch, outside the window (expired / not yet valid / > 7 days) *)
+Theorem verify_vouched_refuses : forall (H256 : bytes -> bytes) (x509_key : bytes -> option (option N))
+    (sig_ok : N -> bytes -> bytes -> bool) (v : vouched) (auths : list augcert) (tsec tnsec : Z)
+    (ver : bversion),
+  (lenN auths <= vs_authority v ->
+   verify_vouched H256 x509_key sig_ok v auths tsec tnsec ver = Err) /\
+  (forall cert kid, nth_error auths (N.to_nat (vs_authority v)) = Some cert ->
+     x509_key (ac_cert cert) = Some (Some kid) ->
+     sig_ok kid (generate_signed_message (vs_signed v) ver) (vs_sig v) = false ->
+     verify_vouched H256 x509_key sig_ok v auths tsec tnsec ver = Err) /\
+  (forall cert ss t, nth_error auths (N.to_nat (vs_authority v)) = Some cert ->
+     decode_signed_subset (vs_signed v) = Ok (ss, t) ->
+     (ss_auth ss <> H256 (ac_cert cert) \/
+      verify_timestamps (ss_date ss) (ss_expires ss) tsec tnsec = false) ->
+     verify_vouched H256 x509_key sig_ok v auths tsec tnsec ver = Err).
+Proof. exact BundleSigBase.verify_vouched_refuses. Qed.
+Print Assumptions verify_vouched_refuses.
+
+Theorem outside_window_refused : forall (H256 : bytes -> bytes) (x509_key : bytes -> option (option N))
+    (sig_ok : N -> bytes -> bytes -> bool) (v : vouched) (auths : list augcert) (tsec tnsec : Z)
+    (ver : bversion) (cert : augcert) (ss : signed_subset) (t : bool),
+  nth_error auths (N.to_nat (vs_authority v)) = Some cert ->
+  decode_signed_subset (vs_signed v) = Ok (ss, t) ->
+  SxgVerifyMsg.i64 (ss_date ss) -> SxgVerifyMsg.i64 (ss_expires ss) -> SxgVerifySound.time_ok tsec tnsec ->
+  ~ Window (ss_date ss) (ss_expires ss) tsec tnsec ->
+  verify_vouched H256 x509_key sig_ok v auths tsec tnsec ver = Err.
+Proof.
+  intros H256 x509_key sig_ok v auths tsec tnsec ver cert ss t Hn Hd Id Ix It Hw.
+  destruct (BundleSigBase.verify_vouched_refuses H256 x509_key sig_ok v auths tsec tnsec ver) as [_ [_ R]].
+  apply (R cert ss t Hn Hd). right.
+  destruct (verify_timestamps (ss_date ss) (ss_expires ss) tsec tnsec) eqn:E; [|reflexivity].
+  exfalso. apply Hw. apply BundleSigSpec.verify_timestamps_window; assumption.
+Qed.
+Print Assumptions outside_window_refused.
+
+Theorem new_verifier_ok_iff : forall (H256 : bytes -> bytes) (x509_key : bytes -> option (option N))
+    (sig_ok : N -> bytes -> bytes -> bool) (sigs : signatures) (tsec tnsec : Z) (ver : bversion)
+    (vss : list (signed_subset * augcert * bool)),
+  new_verifier H256 x509_key sig_ok sigs tsec tnsec ver = Ok vss <->
+  Forall2 (fun v r => verify_vouched H256 x509_key sig_ok v (sg_auth sigs) tsec tnsec ver = Ok r)
+          (sg_vouched sigs) vss.
+Proof. exact BundleSigBase.new_verifier_ok_iff. Qed.
+Print Assumptions new_verifier_ok_iff.
+
+(* ==== VerifyExchange ========================================================================= *)
+Theorem verify_exchange_binds : forall (H256 : bytes -> bytes)
+    (vss : list (signed_subset * augcert * bool)) (x : bexchange) (p a : bytes),
+  verify_exchange H256 vss x = VxOk p a ->
+  existsb (fun e => snd e) vss = false /\
+  exists pre ss cert t post r dg,
+    vss = pre ++ (ss, cert, t) :: post /\
+    Forall (fun e => ~ lists_url (bx_url x) e) pre /\
+    (exists hp hq, ss_hashes ss = hp ++ (bx_url x, {| rh_variants := []; rh_hashes := [r] |}) :: hq /\
+                   ~ exists rh', In (bx_url x, rh') hp) /\
+    a = ac_cert cert /\
+    header_sha256 H256 x = Ok (ri_hsha r) /\
+    ri_integ r = integrity_identifier D03 /\
+    dg = hdr_get (bx_hdr x) (s2b "Digest") /\ dg <> [] /\
+    decode_all H256 D03 (bx_body x) dg 16384 512 = Ok (p, REOF) /\
+    (forall top recs, parse_digest_header D03 dg = Ok top -> Commits H256 top recs ->
+                      p = List.concat recs \/ Collision H256).
+Proof. exact BundleSigBase.verify_exchange_binds. Qed.
+Print Assumptions verify_exchange_binds.
+
+Theorem uncovered_unsigned : forall (H256 : bytes -> bytes)
+    (vss : list (signed_subset * augcert * bool)) (x : bexchange),
+  existsb (fun e => snd e) vss = false ->
+  Forall (fun e => ~ lists_url (bx_url x) e) vss ->
+  verify_exchange H256 vss x = VxUnsigned.
+Proof. exact BundleSigBase.uncovered_unsigned. Qed.
+Print Assumptions uncovered_unsigned.
+
+Theorem unsigned_uncovered : forall (H256 : bytes -> bytes)
+    (vss : list (signed_subset * augcert * bool)) (x : bexchange),
+  verify_exchange H256 vss x = VxUnsigned ->
+  existsb (fun e => snd e) vss = false /\ Forall (fun e => ~ lists_url (bx_url x) e) vss.
+Proof. exact BundleSigBase.unsigned_uncovered. Qed.
+Print Assumptions unsigned_uncovered.
+
+(* ==== completeness: what the signer produced verifies ========================================== *)
+Theorem add_payload_integrity_ok : forall (H256 : bytes -> bytes) (x : bexchange) (rs : N),
+  1 <= rs -> hdr_get (bx_hdr x) (s2b "Digest") = [] ->
+  add_payload_integrity H256 x rs = Ok (with_integrity H256 x rs, integrity_identifier D03).
+Proof. exact BundleSigCover.add_payload_integrity_ok. Qed.
+Print Assumptions add_payload_integrity_ok.
+
+(* one signer's vouched subset is accepted inside its window *)
+Theorem signer_subset_verifies : forall (H256 : bytes -> bytes) (x509_key : bytes -> option (option N))
+    (sig_ok : N -> bytes -> bytes -> bool) (ss : signed_subset) (signed : bytes) (v : vouched)
+    (auths : list augcert) (leaf : augcert) (kid : N) (tsec tnsec : Z) (ver : bversion),
+  ss_ok ss -> encode_subset ss = Ok signed ->
+  ss_auth ss = H256 (ac_cert leaf) ->
+  vs_signed v = signed ->
+  vs_authority v < lenN auths -> nth_error auths (N.to_nat (vs_authority v)) = Some leaf ->
+  x509_key (ac_cert leaf) = Some (Some kid) ->
+  sig_ok kid (generate_signed_message signed ver) (vs_sig v) = true ->
+  verify_timestamps (ss_date ss) (ss_expires ss) tsec tnsec = true ->
+  exists sh, Permutation sh (ss_hashes ss) /\ url_sorted sh /\ NoDup (map fst sh) /\
+    verify_vouched H256 x509_key sig_ok v auths tsec tnsec ver =
+    Ok (with_hashes ss sh, leaf, url_taint (ss_validity ss)).
+Proof. exact BundleSigCover.signer_subset_verifies. Qed.
+Print Assumptions signer_subset_verifies.
+
+Theorem new_verifier_accepts : forall (H256 : bytes -> bytes) (x509_key : bytes -> option (option N))
+    (sig_ok : N -> bytes -> bytes -> bool) (sigs : signatures) (tsec tnsec : Z) (ver : bversion),
+  Forall (subset_good H256 x509_key sig_ok (sg_auth sigs) tsec tnsec ver) (sg_vouched sigs) ->
+  exists vss, new_verifier H256 x509_key sig_ok sigs tsec tnsec ver = Ok vss /\
+              List.length vss = List.length (sg_vouched sigs).
+Proof. exact BundleSigCover.new_verifier_accepts. Qed.
+Print Assumptions new_verifier_accepts.
+
+(* MAIN.  ss0 = NewSigner; ss = ss0 after AddExchange of every covered exchange
+   (each the result of AddPayloadIntegrity, record size 1..16384, on an exchange
+   without a Digest header); signed = Encode ss sits in the i-th vouched subset,
+   which points at the signer's leaf.  If NewVerifier accepts sigs at the given
+   time, a covered exchange verifies: ORIGINAL body, the signer's OWN leaf -
+   unless an earlier subset already lists its URL (first match wins). *)
+Theorem covered_verifies : forall (H256 : bytes -> bytes),
+  (forall m, List.length (H256 m) = 32%nat) -> (forall m, wfb (H256 m)) ->
+  forall (x509_key : bytes -> option (option N)) (sig_ok : N -> bytes -> bytes -> bool)
+    (certs : list augcert) (validity : bytes) (date duration : Z)
+    (ss0 ss : signed_subset) (xs : list (bexchange * bytes)) (signed : bytes)
+    (sigs : signatures) (i : nat) (v : vouched) (leaf : augcert)
+    (tsec tnsec : Z) (ver : bversion) (vss : list (signed_subset * augcert * bool))
+    (x : bexchange) (rs : N),
+  new_signer H256 certs validity date duration = Ok ss0 ->
+  add_all H256 ss0 xs = Ok ss -> ss_ok ss -> encode_subset ss = Ok signed ->
+  nth_error (sg_vouched sigs) i = Some v -> vs_signed v = signed ->
+  nth_error (sg_auth sigs) (N.to_nat (vs_authority v)) = Some leaf ->
+  new_verifier H256 x509_key sig_ok sigs tsec tnsec ver = Ok vss ->
+  existsb (fun e => snd e) vss = false ->
+  1 <= rs -> rs <= 16384 -> hdr_values (bx_hdr x) (s2b "Digest") = [] ->
+  In (with_integrity H256 x rs, integrity_identifier D03) xs ->
+  Forall (fun e => ~ lists_url (bx_url x) e) (firstn i vss) ->
+  verify_exchange H256 vss (with_integrity H256 x rs) = VxOk (bx_body x) (ac_cert leaf).
+Proof. exact BundleSigCover.covered_verifies. Qed.
+Print Assumptions covered_verifies.
+
+(* ==== writing and re-reading the signatures section ============================================ *)
+(* sigs_ok: every authority DER is accepted by x509.ParseCertificate (x509_ok),
+   sizes below 2^63 / counts and authority indices below 2^64 *)
+Theorem signatures_section_roundtrip : forall (x509_ok : bytes -> bool) (s : signatures) (bs : bytes),
+  sigs_ok x509_ok s -> signatures_section s = Ok bs -> parse_signatures x509_ok bs = Ok s.
+Proof. exact BundleSigSection.signatures_section_roundtrip. Qed.
+Print Assumptions signatures_section_roundtrip.
+
+Theorem signatures_section_never_fails : forall (s : signatures),
+  signatures_section s = Ok (section_bytes s).
+Proof. exact BundleSigSection.signatures_section_ok. Qed.
+Print Assumptions signatures_section_never_fails.
+
+(* hence the verifier built from the re-read section is the same verifier *)
+Theorem verifier_after_reread : forall (H256 : bytes -> bytes) (x509_key : bytes -> option (option N))
+    (sig_ok : N -> bytes -> bytes -> bool) (x509_ok : bytes -> bool) (s s' : signatures) (bs : bytes)
+    (tsec tnsec : Z) (ver : bversion),
+  sigs_ok x509_ok s -> signatures_section s = Ok bs -> parse_signatures x509_ok bs = Ok s' ->
+  new_verifier H256 x509_key sig_ok s' tsec tnsec ver = new_verifier H256 x509_key sig_ok s tsec tnsec ver.
+Proof.
+  intros H256 x509_key sig_ok x509_ok s s' bs tsec tnsec ver Hok Hw Hr.
+  rewrite (BundleSigSection.signatures_section_roundtrip x509_ok s bs Hok Hw) in Hr.
+  injection Hr as <-. reflexivity.
+Qed.
+Print Assumptions verifier_after_reread.
+
+(* ==== alterations ================================================================================ *)
+Theorem header_tamper_detected : forall (H256 : bytes -> bytes)
+    (vss : list (signed_subset * augcert * bool)) (x x' : bexchange) (p a p' a' : bytes),
+  hdr_small x -> hdr_small x' -> bx_url x' = bx_url x ->
+  verify_exchange H256 vss x = VxOk p a -> verify_exchange H256 vss x' = VxOk p' a' ->
+  a' = a /\
+  ((bx_status x' = bx_status x /\
+    Permutation (map hfield (bx_hdr x')) (map hfield (bx_hdr x))) \/ Collision H256).
+Proof. exact BundleSigTamper.header_tamper_detected. Qed.
+Print Assumptions header_tamper_detected.
+
+Theorem body_tamper_detected : forall (H256 : bytes -> bytes)
+    (vss : list (signed_subset * augcert * bool)) (x x' : bexchange)
+    (p a p' a' top : bytes) (recs : list bytes),
+  hdr_get (bx_hdr x') (s2b "Digest") = hdr_get (bx_hdr x) (s2b "Digest") ->
+  parse_digest_header D03 (hdr_get (bx_hdr x) (s2b "Digest")) = Ok top -> Commits H256 top recs ->
+  verify_exchange H256 vss x = VxOk p a -> verify_exchange H256 vss x' = VxOk p' a' ->
+  (p = List.concat recs /\ p' = List.concat recs) \/ Collision H256.
+Proof. exact BundleSigTamper.body_tamper_detected. Qed.
+Print Assumptions body_tamper_detected.
+
+Theorem encode_response_header_injective : forall (st st' : Z) (h h' : headers) (bs : bytes),
+  pairs_small (hfields st h) -> pairs_small (hfields st' h') ->
+  encode_response_header st h = Ok bs -> encode_response_header st' h' = Ok bs ->
+  st = st' /\ Permutation (map hfield h) (map hfield h').
+Proof. exact BundleSigTamper.encode_response_header_injective. Qed.
+Print Assumptions encode_response_header_injective.
+
+(* signature bytes, signed bytes, version string *)
+Theorem vouched_binds : forall (H256 : bytes -> bytes) (x509_key : bytes -> option (option N))
+    (sig_ok : N -> bytes -> bytes -> bool) (signed_by : N -> bytes -> Prop) (v : vouched)
+    (auths : list augcert) (tsec tnsec : Z) (ver : bversion) (ss : signed_subset) (cert : augcert)
+    (t : bool),
+  (forall kid m s, sig_ok kid m s = true -> signed_by kid m) ->
+  verify_vouched H256 x509_key sig_ok v auths tsec tnsec ver = Ok (ss, cert, t) ->
+  exists kid, x509_key (ac_cert cert) = Some (Some kid) /\
+              nth_error auths (N.to_nat (vs_authority v)) = Some cert /\
+              signed_by kid (generate_signed_message (vs_signed v) ver) /\
+              (forall signed0 ver0, (forall m, signed_by kid m -> m = generate_signed_message signed0 ver0) ->
+                                    vs_signed v = signed0 /\ ver = ver0) /\
+              decode_signed_subset (vs_signed v) = Ok (ss, t) /\ ss_auth ss = H256 (ac_cert cert).
+Proof. exact BundleSigTamper.vouched_binds. Qed.
+Print Assumptions vouched_binds.
+
+Theorem authority_index_tamper : forall (H256 : bytes -> bytes) (x509_key : bytes -> option (option N))
+    (sig_ok : N -> bytes -> bytes -> bool) (v : vouched) (j : N) (auths : list augcert)
+    (tsec tnsec : Z) (ver : bversion) (ss ss' : signed_subset) (cert cert' : augcert) (t t' : bool),
+  verify_vouched H256 x509_key sig_ok v auths tsec tnsec ver = Ok (ss, cert, t) ->
+  verify_vouched H256 x509_key sig_ok
+    {| vs_authority := j; vs_sig := vs_sig v; vs_signed := vs_signed v |} auths tsec tnsec ver
+    = Ok (ss', cert', t') ->
+  ss' = ss /\ H256 (ac_cert cert') = H256 (ac_cert cert) /\
+  (ac_cert cert' = ac_cert cert \/ Collision H256).
+Proof. exact BundleSigTamper.authority_index_tamper. Qed.
+Print Assumptions authority_index_tamper.
+
+Theorem signed_bytes_bind_subset : forall (H256 : bytes -> bytes) (x509_key : bytes -> option (option N))
+    (sig_ok : N -> bytes -> bytes -> bool) (s : signed_subset) (signed : bytes) (v : vouched)
+    (auths : list augcert) (tsec tnsec : Z) (ver : bversion) (ss : signed_subset) (cert : augcert)
+    (t : bool),
+  ss_ok s -> encode_subset s = Ok signed -> vs_signed v = signed ->
+  verify_vouched H256 x509_key sig_ok v auths tsec tnsec ver = Ok (ss, cert, t) ->
+  ss_validity ss = ss_validity s /\ ss_auth ss = ss_auth s /\ ss_date ss = ss_date s /\
+  ss_expires ss = ss_expires s /\ Permutation (ss_hashes ss) (ss_hashes s).
+Proof. exact BundleSigTamper.signed_bytes_bind_subset. Qed.
+Print Assumptions signed_bytes_bind_subset.
+
+(* ==== executions: two signers in sequence on a three-exchange bundle ========================== *)
+(* toy key identification: the first DER byte; toy signature of msg under key
+   kid: SHA-256 (kid :: msg) *)
+Definition toy_key (der : bytes) : option (option N) :=
+  match der with k :: _ => Some (Some k) | [] => None end.
+Definition toy_sign (kid : N) (msg : bytes) : bytes := sha256 (kid :: msg).
+Definition toy_ok (kid : N) (msg sg : bytes) : bool := bytes_eqb sg (toy_sign kid msg).
+
+Definition mk_x (url body : string) : bexchange :=
+  {| bx_url := s2b url; bx_status := 200%Z;
+     bx_hdr := [(s2b "Content-Type", [s2b "text/plain"])]; bx_body := s2b body |}.
+Definition x1 := mk_x "https://a.example/one" "the first body, longer than one sixteen-byte record".
+Definition x2 := mk_x "https://b.example/two" "second".
+Definition x3 := mk_x "https://c.example/three" "not covered by anyone".
+
+Definition leafA : augcert := {| ac_cert := [65; 1; 2; 3]; ac_ocsp := Some [7]; ac_sct := None |}.
+Definition interA : augcert := {| ac_cert := [90; 9]; ac_ocsp := None; ac_sct := None |}.
+Definition leafB : augcert := {| ac_cert := [66; 4; 5]; ac_ocsp := Some [8]; ac_sct := Some [1] |}.
+Definition date0 : Z := 1700000000.
+Definition week : Z := 604800.
+
+(* one signer: AddPayloadIntegrity (record size 16), NewSigner, AddExchange,
+   Encode, sign, UpdateSignatures *)
+Definition run_signer (sigs : option signatures) (certs : list augcert) (kid : N) (validity : string)
+    (x : bexchange) : R (signatures * bexchange) :=
+  let* (x', integ) := add_payload_integrity sha256 x 16 in
+  let* s0 := new_signer sha256 certs (s2b validity) date0 week in
+  let* s1 := add_exchange sha256 s0 x' integ in
+  let* signed := encode_subset s1 in
+  Ok (update_signatures sigs certs signed (toy_sign kid (generate_signed_message signed BV2)), x').
+
+Definition ex_run : R (signatures * bexchange * bexchange) :=
+  let* (sg1, x1') := run_signer None [leafA; interA] 65 "https://a.example/validity" x1 in
+  let* (sg2, x2') := run_signer (Some sg1) [leafB] 66 "https://b.example/validity" x2 in
+  Ok (sg2, x1', x2').
+
+Definition flip_last (b : bytes) : bytes :=
+  match rev b with c :: r => rev (N.lxor c 1 :: r) | [] => [] end.
+Definition with_body (x : bexchange) (b : bytes) : bexchange :=
+  {| bx_url := bx_url x; bx_status := bx_status x; bx_hdr := bx_hdr x; bx_body := b |}.
+Definition with_status (x : bexchange) (s : Z) : bexchange :=
+  {| bx_url := bx_url x; bx_status := s; bx_hdr := bx_hdr x; bx_body := bx_body x |}.
+
+Example ex_two_signers :
+  match ex_run with
+  | Ok (sigs, x1', x2') =>
+      (* authority indices 0 and 2; three authorities *)
+      map vs_authority (sg_vouched sigs) = [0; 2] /\ sg_auth sigs = [leafA; interA; leafB] /\
+      match new_verifier sha256 toy_key toy_ok sigs (date0 + 5) 0 BV2 with
+      | Ok vss =>
+          verify_exchange sha256 vss x1' = VxOk (bx_body x1) (ac_cert leafA) /\
+          verify_exchange sha256 vss x2' = VxOk (bx_body x2) (ac_cert leafB) /\
+          verify_exchange sha256 vss x3 = VxUnsigned /\
+          (* a flipped body bit, another status, the un-encoded body *)
+          verify_exchange sha256 vss (with_body x1' (flip_last (bx_body x1'))) = VxErr /\
+          verify_exchange sha256 vss (with_status x1' 404) = VxErr /\
+          verify_exchange sha256 vss x1 = VxErr
+      | _ => False
+      end /\
+      (* the signatures section, written and read back, is the same value *)
+      match signatures_section sigs with
+      | Ok bs => parse_signatures (fun _ => true) bs = Ok sigs
+      | _ => False
+      end /\
+      (* at date and at expires exactly: accepted; one nanosecond / second
+         outside: refused; wrong version string: refused *)
+      is_ok (new_verifier sha256 toy_key toy_ok sigs date0 0 BV2) = true /\
+      is_ok (new_verifier sha256 toy_key toy_ok sigs (date0 + week) 0 BV2) = true /\
+      new_verifier sha256 toy_key toy_ok sigs (date0 + week) 1 BV2 = Err /\
+      new_verifier sha256 toy_key toy_ok sigs (date0 - 1) 999999999 BV2 = Err /\
+      new_verifier sha256 toy_key toy_ok sigs (date0 + 5) 0 BV1 = Err /\
+      (* a signature bit, a signed-subset bit, the authority index *)
+      match sg_vouched sigs with
+      | [va; vb] =>
+          new_verifier sha256 toy_key toy_ok
+            {| sg_auth := sg_auth sigs;
+               sg_vouched := [{| vs_authority := 0; vs_sig := flip_last (vs_sig va); vs_signed := vs_signed va |}; vb] |}
+            (date0 + 5) 0 BV2 = Err /\
+          new_verifier sha256 toy_key toy_ok
+            {| sg_auth := sg_auth sigs;
+               sg_vouched := [{| vs_authority := 0; vs_sig := vs_sig va; vs_signed := flip_last (vs_signed va) |}; vb] |}
+            (date0 + 5) 0 BV2 = Err /\
+          new_verifier sha256 toy_key toy_ok
+            {| sg_auth := sg_auth sigs;
+               sg_vouched := [va; {| vs_authority := 0; vs_sig := vs_sig vb; vs_signed := vs_signed vb |}] |}
+            (date0 + 5) 0 BV2 = Err /\
+          new_verifier sha256 toy_key toy_ok
+            {| sg_auth := sg_auth sigs;
+               sg_vouched := [va; {| vs_authority := 3; vs_sig := vs_sig vb; vs_signed := vs_signed vb |}] |}
+            (date0 + 5) 0 BV2 = Err
+      | _ => False
+      end
+  | _ => False
+  end.
+Proof. vm_compute. repeat split. Qed.
+
+(* a signature valid for more than 7 days is refused even inside [date, expires] *)
+Example ex_too_long :
+  match (let* s0 := new_signer sha256 [leafB] (s2b "https://b.example/validity") date0 (week + 1) in
+         let* signed := encode_subset s0 in
+         Ok (update_signatures None [leafB] signed (toy_sign 66 (generate_signed_message signed BV2)))) with
+  | Ok sigs => new_verifier sha256 toy_key toy_ok sigs (date0 + 5) 0 BV2 = Err
+  | _ => False
+  end.
+Proof. vm_compute. reflexivity. Qed.
+
+(* the hypotheses of signed_subset_roundtrip hold on a subset with two URLs
+   supplied out of order, and the round trip puts them in order *)
+Definition ex_subset : signed_subset :=
+  {| ss_validity := s2b "https://a.example/validity"; ss_auth := sha256 [65; 1; 2; 3];
+     ss_date := date0; ss_expires := (date0 + week)%Z;
+     ss_hashes := [(s2b "https://a.example/zz", {| rh_variants := []; rh_hashes := [{| ri_hsha := [1; 2]; ri_integ := s2b "digest/mi-sha256-03" |}] |});
+                   (s2b "https://a.example/a", {| rh_variants := [9]; rh_hashes := [{| ri_hsha := [3]; ri_integ := s2b "x" |}; {| ri_hsha := []; ri_integ := [] |}] |})] |}.
+
+Example ex_subset_ok : ss_ok ex_subset.
+Proof.
+  unfold ss_ok, ex_subset. cbn [ss_date ss_expires ss_validity ss_auth ss_hashes].
+  split; [vm_compute; split; [discriminate|reflexivity]|].
+  split; [vm_compute; split; [discriminate|reflexivity]|].
+  split; [vm_compute; discriminate|].
+  split; [vm_compute; reflexivity|]. split; [vm_compute; reflexivity|]. split; [vm_compute; reflexivity|].
+  repeat constructor; cbn [fst snd rh_hashes rh_variants ri_hsha ri_integ]; try discriminate;
+    vm_compute; reflexivity.
+Qed.
+
+Example ex_subset_roundtrip :
+  match encode_subset ex_subset with
+  | Ok bs => decode_signed_subset bs = Ok (with_hashes ex_subset (rev (ss_hashes ex_subset)), false)
+  | _ => False
+  end.
+Proof. vm_compute. reflexivity. Qed.
+
+(* a URL with no resource-integrity pair is written but not read back: the
+   side condition "at least one pair" of ss_ok is needed *)
+Example ex_zero_pairs_not_read_back :
+  match encode_subset {| ss_validity := s2b "https://a.example/v"; ss_auth := [1]; ss_date := date0;
+                         ss_expires := date0;
+                         ss_hashes := [(s2b "https://a.example/", {| rh_variants := []; rh_hashes := [] |})] |} with
+  | Ok bs => decode_signed_subset bs = Err
+  | _ => False
+  end.
+Proof. vm_compute. reflexivity. Qed.
+
+(* FINDING (model of the code as it stands): AddPayloadIntegrity tests
+   Header.Get("Digest") != "", so an exchange that already carries an EMPTY
+   Digest header value passes, Add appends the real digest as a second value,
+   and VerifyExchange (which reads the first value) then fails with "digest
+   response header not present": signing succeeds, the exchange never
+   verifies.  Hence "no Digest header" in covered_verifies is
+   hdr_values ... = [], not hdr_get ... = []. *)
+Definition x_empty_digest : bexchange :=
+  {| bx_url := s2b "https://b.example/two"; bx_status := 200%Z;
+     bx_hdr := [(s2b "Digest", [[]])]; bx_body := s2b "second" |}.
+Example covered_verifies_needs_no_digest_key_refuted :
+  hdr_get (bx_hdr x_empty_digest) (s2b "Digest") = [] /\
+  match run_signer None [leafB] 66 "https://b.example/validity" x_empty_digest with
+  | Ok (sigs, x') =>
+      match new_verifier sha256 toy_key toy_ok sigs (date0 + 5) 0 BV2 with
+      | Ok vss => verify_exchange sha256 vss x' = VxErr
+      | _ => False
+      end
+  | _ => False
+  end.
+Proof. vm_compute. split; reflexivity. Qed.
+
+(* the hash-format hypotheses of covered_verifies hold for SHA-256 in the form
+   needed on any concrete input; a toy hash satisfies them for all inputs *)
+Definition toyH (m : bytes) : bytes :=
+  be 32 (fold_left (fun a b => (a * 257 + b + 1) mod 2 ^ 256) m 7).
+Example toyH_format : (forall m, List.length (toyH m) = 32%nat) /\ (forall m, wfb (toyH m)).
+Proof. split; intros m; [apply be_length|apply be_wfb]. Qed.
+
+(* the size / parse hypotheses are satisfiable *)
+Example ex_sigs_ok :
+  sigs_ok (fun _ => true)
+    {| sg_auth := [leafA; interA; leafB];
+       sg_vouched := [{| vs_authority := 0; vs_sig := [1]; vs_signed := [2] |};
+                      {| vs_authority := 2; vs_sig := []; vs_signed := [3; 4] |}] |}.
+Proof.
+  unfold sigs_ok, vouched_ok, aug_lt, opt_len_lt. cbn [sg_auth sg_vouched].
+  split; [reflexivity|]. split; [reflexivity|].
+  split; [repeat constructor|].
+  split; repeat (apply Forall_cons || apply Forall_nil);
+    cbn [ac_cert ac_ocsp ac_sct leafA interA leafB vs_authority vs_sig vs_signed];
+    repeat split; reflexivity || exact I.
+Qed.
+
+Example ex_hdr_small : hdr_small x1 /\ hdr_small (with_integrity sha256 x1 16).
+Proof.
+  split; (split; [vm_compute; reflexivity|]);
+    repeat (apply Forall_cons || apply Forall_nil); split; vm_compute; reflexivity.
+Qed.
